@@ -82,6 +82,8 @@ func main() {
 			name = os.Args[2]
 		}
 		os.Exit(selfcheck(name))
+	case "machinechild":
+		os.Exit(machineChild())
 	case "recoverchild":
 		os.Exit(recoverChild())
 	case "envchild":
